@@ -13,6 +13,8 @@ CLAIMS = {
          "Lean 4 proof (reader-consumes-exactly-its-text lemmas, induction over parts) + differential correspondence"),
  "C15": ("Theorems: table facts decided in the kernel over tables regenerated from mml_def.rs/command.md/voice.md on every run (each controller/RPN/NRPN/text/tempo/time-signature/voice/pitch-bend command and every alias has the standard number from the hand-written Spec tables, no command of those classes is unspecified, doc CC#n = table, every voice.md name = its GM number) and byte-layout lemmas on the model arms (tempo FF 51 03 + 60,000,000/bpm for every bpm, time signature nn log2(dd) 24 8, 14-bit LSB-first bend centred 8192, p×128, Roland checksum law, text cut prefix/≤127 bytes/maximal). Tie: exhaustive sweeps of one-command programs through the real code, decoded bytes = Spec messages.",
          "Lean 4 proof (kernel-decided table facts over regenerated tables; arithmetic byte-layout lemmas) + exhaustive sweep correspondence"),
+ "C17": ("Theorems: zen2han for every scalar value; the first match in a vocabulary sorted by byte length is a longest match, and the stable sort re-establishes sortedness after every ~{name}={value} (any vocabulary, incl. user words); definitions act from their position on; plain ASCII passes the loop unchanged for every vocabulary whose words start non-ASCII (decided in the kernel for the regenerated built-in vocabulary); terminated {\"..\"} strings are copied verbatim. Tie: real convert vs the model and vs an independent explicit-maximum longest-match specification on structured inputs; ASCII identity; exhaustive width map; Japanese piece vs transliteration bytes.",
+         "Lean 4 proof (sortedness invariant ⇒ longest match; induction over text) + differential correspondence with an independent greedy specification"),
  "C20": ("Theorems: the dump's delta reader inverts the VLQ encoder for every value at any file offset (incl. 0x7F bytes); position round trip TIME(m:b:t); negation witness for the unrepaired reader. Tie: real dump text of real compiler outputs vs lines derived from the independent decoder and the position formula.",
          "Lean 4 proof (index-loop reader inverts encoder) + spec-on-real-output correspondence"),
 }
